@@ -133,8 +133,8 @@ func Assert(cond bool, id string) {
 func Unreachable(id string)  { Assert(false, id) }
 func Stop()                  { panic(stopped{}) }
 func NoPanic(id string)      { cur.NoPanicID = id }
-func SetUnwind(n int) {}
-func SetMaxFaults(n int) {}
+func SetUnwind(n int)        {}
+func SetMaxFaults(n int)     {}
 func SetMaxSteps(n int)      {}
 func OpaqueNonlinear(b bool) {}
 
